@@ -1,6 +1,7 @@
 \* exhaustive: the user's library after <= 3 calls (own merges of the files read by hand and directory merges, in any order)
 CONSTANTS NSrc = 7  NLab = 8  Fissile = {1, 2, 4}  MaxLevel = 4  SrcList = {}
 CONSTANT DirScen <- ScenQuick
+CONSTANT IdOf <- IdOf8
 INIT DInit
 NEXT DNext
 CONSTRAINT Bound
